@@ -9,7 +9,7 @@ from .c08 import canonical_docs
 from .c09 import run_collection
 
 RULE = ('(A) one canonical document per concrete class (25) + pretty-printed + Unicode/special-character variants x {file, str, '
-        'bytes, fake S3 object}: same class, same str(); (B) collections of <= 4 messages through the three constructors: '
+        'bytes, fake S3 object}: same class, same str(); documents stored in a declared ISO-8859-1 / UTF-16 / UTF-8 encoding with non-ASCII content x {bytes, file, S3 object}; (B) collections of <= 4 messages through the three constructors: '
         'same merged str(mc); every reader reports message_id / ro_id / mos_type of the object it restores, two '
         'restorations are distinct objects with equal str(), equal to a direct parse of the original text; (C) bucket '
         'listings: every composition of k <= K keys into result pages x every subset of keys carrying the suffix x prefix '
@@ -45,6 +45,12 @@ def items_for(tier):
         items.append(('doc', cls, 'unicode', text.replace('<mosID>m.os</mosID>', f'<mosID>{gen.escape(uni)}</mosID>', 1)
                       .replace('<roID>RO1</roID>', f'<roID>RO1 {gen.escape(uni)}</roID>')))
         items.append(('doc', cls, 'xml-declaration', '<?xml version="1.0" encoding="UTF-8"?>\n' + text))
+    # documents stored in a declared non-UTF-8 encoding (bytes / file / S3 object hold the same bytes)
+    for cls in ('RunningOrder', 'StoryAppend', 'StorySend', 'EAItemInsert', 'RunningOrderReplace', 'MetaDataReplace'):
+        text = canon[cls].replace('<mosID>m.os</mosID>', '<mosID>caf\u00e9 \u00a35</mosID>', 1)
+        for enc in ('ISO-8859-1', 'UTF-16', 'UTF-8'):
+            data = (f'<?xml version="1.0" encoding="{enc}"?>' + text).encode(enc.lower().replace('utf-16', 'utf-16'))
+            items.append(('bytesdoc', cls, enc, data))
     names = list(coll.pool_messages())
     L = 3 if tier == 'quick' else 4
     for n in range(0, L + 1):
@@ -101,6 +107,32 @@ def worker(ns, items, res, opts):
                         explore.add_simple_finding(res, prop, f'doc:{src}-vs-str:{what}:{variant}',
                                                    f'{cls} ({variant}): from {src} gives {v[0]}, from str {got["str"][0]}' + ('' if what == 'class' else '; str() differs'),
                                                    document=text)
+                        break
+            elif it[0] == 'bytesdoc':
+                _, cls, enc, data = it
+                res.nontrivial += 1
+                path = os.path.join(tmp, 'b.mos.xml')
+                with open(path, 'wb') as f:
+                    f.write(data)
+                store.objects = {}
+                store.put('b', 'k.mos.xml', data)
+                got = {}
+                for src, fn in (('bytes', lambda: ns.mt.MosFile.from_string(data)),
+                                ('file', lambda: ns.mt.MosFile.from_file(path)),
+                                ('s3', lambda: ns.mt.MosFile.from_s3('b', 'k.mos.xml'))):
+                    try:
+                        o = fn()
+                        got[src] = (type(o).__name__, str(o))
+                    except Exception as e:  # noqa
+                        got[src] = ('EXC:' + type(e).__name__, str(e)[:80])
+                res.by_class[f'bytesdoc:{enc}'] += 1
+                res.by_outcome[got['bytes'][0]] += 1
+                if got['bytes'][0] != cls or 'caf\u00e9' not in got['bytes'][1]:
+                    explore.add_simple_finding(res, prop, f'bytesdoc:{enc}:bytes', f'{cls} stored as {enc}: from bytes gives {got["bytes"][0]}: {got["bytes"][1][:80]}')
+                for src, v in got.items():
+                    if v != got['bytes']:
+                        explore.add_simple_finding(res, prop, f'bytesdoc:{src}-vs-bytes:{enc}',
+                                                   f'{cls} stored as {enc}: from {src} gives {v[0]} ({v[1][:60]!r}), from bytes {got["bytes"][0]}')
                         break
             elif it[0] == 'coll':
                 seq = it[1]
